@@ -494,6 +494,51 @@ theorem no_ice_before_nucleation (n : Nat) (x : Nat) :
     rd1 (Array.replicate n (Num.zero : ℝ)) x = 0 := by
   simp [rd1, Array.getD]
 
+/-! ### solidification stage (partial) -/
+
+/-- **`maxprinciple_solid` (partial)** — one assignment of the solidification-stage stencil at
+an off-axis node that is not the bottom corner, written as `c + θ·Σ w_k (x_k − c)`.
+With `θ = dt/(ρ c_p B) ≥ 0` and the four weights
+`w_o = k/(2 r dr) + Δk_r/(4dr²) + k/dr²`, `w_n = −k/(2 r dr) − Δk_r/(4dr²) + k/dr²`,
+`w_u = Δk_z/(4dz²) + k/dz²`, `w_l = −Δk_z/(4dz²) + k/dz²` non-negative (sign conditions on the
+conductivity differences — they are HYPOTHESES: `|Δk| ≤ 4k` is not implied by the model when
+ice (2.25 W/mK) and solution (0.57 W/mK) nodes are neighbours) and `θ·(w_o+w_n+w_u+w_l) ≤ 1`,
+the new value lies in the interval of the five values read.  What is missing for the property:
+the sign conditions themselves, the bottom corner (whose stencil has a non-zero coefficient sum),
+the nonlinear capacity evaluated at the old temperature, and `T ≤ T_eq_l` where ice is. -/
+theorem maxprinciple_solid_partial (Nz Nr : Nat) (dt rho dz dr lo hi : ℝ) (r : Nat → ℝ)
+    (k cp B T : Nat → Nat → ℝ) (Tb Tt Te : Nat → ℝ) (i j : Nat)
+    (hj0 : j ≠ 0) (hcorner : ¬ (i = 0 ∧ j + 1 = Nr))
+    (wo wn wu wl θ : ℝ)
+    (hθ : θ = dt / (cp i j * rho) * (1 / B i j)) (hθ0 : 0 ≤ θ)
+    (hwo : wo = k i j / r j / (2 * dr)
+        + ((if j + 1 = Nr then k i j else k i (j + 1)) - (if j = 0 then k i j else k i (j - 1))) / (4 * (dr * dr))
+        + k i j / (dr * dr))
+    (hwn : wn = -(k i j / r j / (2 * dr))
+        - ((if j + 1 = Nr then k i j else k i (j + 1)) - (if j = 0 then k i j else k i (j - 1))) / (4 * (dr * dr))
+        + k i j / (dr * dr))
+    (hwu : wu = ((if i + 1 = Nz then k i j else k (i + 1) j) - (if i = 0 then k i j else k (i - 1) j)) / (4 * (dz * dz))
+        + k i j / (dz * dz))
+    (hwl : wl = -(((if i + 1 = Nz then k i j else k (i + 1) j) - (if i = 0 then k i j else k (i - 1) j)) / (4 * (dz * dz)))
+        + k i j / (dz * dz))
+    (h1 : 0 ≤ wo) (h2 : 0 ≤ wn) (h3 : 0 ≤ wu) (h4 : 0 ≤ wl) (hsum : θ * (wo + wn + wu + wl) ≤ 1)
+    (hc : lo ≤ T i j ∧ T i j ≤ hi)
+    (ho : lo ≤ outer Nr T Te i j ∧ outer Nr T Te i j ≤ hi) (hn : lo ≤ inner T i j ∧ inner T i j ≤ hi)
+    (hu : lo ≤ upper Nz T Tt i j ∧ upper Nz T Tt i j ≤ hi) (hl : lo ≤ lower T Tb i j ∧ lower T Tb i j ≤ hi) :
+    lo ≤ solidNode Nz Nr dt rho dz dr r k cp B T Tb Tt Te i j ∧
+      solidNode Nz Nr dt rho dz dr r k cp B T Tb Tt Te i j ≤ hi := by
+  have e : solidNode Nz Nr dt rho dz dr r k cp B T Tb Tt Te i j
+      = (1 - θ * (wo + wn + wu + wl)) * T i j + (θ * wo) * outer Nr T Te i j + (θ * wn) * inner T i j
+        + (θ * wu) * upper Nz T Tt i j + (θ * wl) * lower T Tb i j := by
+    unfold solidNode
+    simp only [ofNat'_real, Nat.cast_ofNat, Nat.cast_one, hj0, if_false, hcorner]
+    rw [hθ, hwo, hwn, hwu, hwl]
+    simp only [hj0, if_false]
+    ring
+  rw [e]
+  exact convex5 _ _ _ _ _ _ _ _ _ _ lo hi (by linarith) (mul_nonneg hθ0 h1) (mul_nonneg hθ0 h2)
+    (mul_nonneg hθ0 h3) (mul_nonneg hθ0 h4) (by ring) hc ho hn hu hl
+
 /-! ### the code's radial grid satisfies `r_j ≥ dr/2` -/
 
 /-- `r = np.linspace(0, R, Nr)` and `dr = R/Nr`: for `j ≥ 1`, `r_j ≥ dr/2` (indeed `r_j ≥ dr`) -/
